@@ -22,7 +22,7 @@ for pid in ARGS:
     for e in json.load(open(path)):
         if e["status"] == "fixed":
             fid = e["id"].replace("F-", "")
-            cands = [f for f in commit_of if f == fid or (fid.startswith(f) and len(fid) - len(f) <= 0) or f.startswith(fid)]
+            cands = [fid] if fid in commit_of else [f for f in commit_of if f.startswith(fid)]
             if fid in ("C12g", "C12h"):
                 cands = [f for f in commit_of if f == "C12gh"]
             if fid in ("C17", "C19b"):
@@ -37,6 +37,12 @@ for pid in ARGS:
         else:
             idx[key] = len(known)
             known.append(e)
+for k in known:
+    what = k["description"].split(";")[0].split(". ")[0][:200]
+    if k["status"] == "fixed":
+        k["record"] = f"fixed: property={k['property']} {k.get('commit', 'PENDING')} {what}"
+    else:
+        k["record"] = f"open: property={k['property']} {k['id']} {what}"
 json.dump(known, open(os.path.join(V, "known_findings.json"), "w"), indent=1)
 for k in known:
     print(k["property"], k["id"], k["status"], k.get("commit", ""), k["signature"][:60])
